@@ -577,6 +577,64 @@ fn random_ops(rng: &mut Rng, writes: bool) -> Vec<AdOp> {
         .collect()
 }
 
+
+/// a writer that records only the LENGTH of what it is handed (payloads beyond 2 GiB cannot be logged byte by byte)
+struct LenRw {
+    acts: Vec<WAct>,
+    calls: Vec<usize>,
+}
+impl Read for LenRw {
+    fn read(&mut self, _d: &mut [u8]) -> std::io::Result<usize> {
+        Ok(0)
+    }
+}
+impl Write for LenRw {
+    fn write(&mut self, buf: &[u8]) -> std::io::Result<usize> {
+        self.calls.push(buf.len());
+        match if self.acts.is_empty() { WAct::Full } else { self.acts.remove(0) } {
+            WAct::Full => Ok(buf.len()),
+            WAct::Part(k) => Ok(k.min(buf.len())),
+            WAct::Zero => Ok(0),
+            WAct::Err(k) => Err(std::io::Error::new(num_kind(k), "scripted")),
+        }
+    }
+    fn flush(&mut self) -> std::io::Result<()> {
+        Ok(())
+    }
+}
+
+/// payloads around 2^31 and 2^32 bytes (platform limits such as INT_MAX) through the adapters' write side, with every
+/// result the wrapped writer can give: `BW <adapter> <len> <act> | <lengths the inner writer saw> ; <result>`
+pub fn big_writes(mode: &str, w: &mut impl std::io::Write) -> usize {
+    let mut n = 0;
+    let lens: [usize; 4] = [(1usize << 31) - 1, 1usize << 31, (1usize << 31) + 5, (1usize << 32) + 1];
+    let big: Vec<u8> = vec![0u8; lens[3]]; // zero pages, never touched
+    let mut acts: Vec<WAct> = vec![WAct::Full, WAct::Part(7), WAct::Zero];
+    acts.extend((2u8..=38).map(WAct::Err));
+    for &len in &lens {
+        for a in &acts {
+            let astr = match a {
+                WAct::Full => "f".to_string(),
+                WAct::Part(k) => format!("p{}", k),
+                WAct::Zero => "z".to_string(),
+                WAct::Err(k) => format!("x{}", k),
+            };
+            let mut inner = LenRw { acts: vec![a.clone()], calls: vec![] };
+            let r = if mode == "chain" {
+                let mut first = LenRw { acts: vec![], calls: vec![] };
+                let mut chain = ReadWriteChain::new(&mut first, &mut inner);
+                chain.write(&big[..len])
+            } else {
+                let mut take = ReadWriteTake::new(&mut inner, 5);
+                take.write(&big[..len])
+            };
+            writeln!(w, "BW {} {} {} | {} ; {}", mode, len, astr, nums(&inner.calls), res_str(&r)).unwrap();
+            n += 1;
+        }
+    }
+    n
+}
+
 /// operation lists that go through the vectored entry points of the Read / Write traits
 fn vectored_ops() -> Vec<Vec<AdOp>> {
     use AdOp::*;
@@ -610,6 +668,55 @@ pub fn run(mode: &str, thorough: bool, seed: u64, w: &mut impl std::io::Write) {
                         n += 1;
                     }
                 }
+            }
+        }
+    }
+    let bw = big_writes(mode, w);
+    eprintln!("STAT ad big_writes={} lengths=2^31-1,2^31,2^31+5,2^32+1", bw);
+    n += bw;
+    // every error kind std::io knows: from first, from second / inner, on reads, writes and flushes
+    for kind in 2u8..=38 {
+        let ops = vec![AdOp::Read(4), AdOp::Write(b"xy".to_vec()), AdOp::Flush, AdOp::Read(4), AdOp::Write(b"z".to_vec()), AdOp::Read(4)];
+        if mode == "chain" {
+            let mut s1 = mk(1, b"AB", vec![RAct::Err(kind), RAct::Data(1, false)]);
+            let mut s2 = mk(2, b"cdef", vec![RAct::Data(2, false), RAct::Err(kind)]);
+            s1.wacts = vec![WAct::Err(kind)];
+            s2.wacts = vec![WAct::Err(kind), WAct::Full];
+            s2.facts = vec![Some(kind)];
+            chain_line(&s1, &s2, &ops, w);
+            n += 1;
+        }
+        if mode == "take" {
+            let mut s = mk(1, b"abcdefgh", vec![RAct::Err(kind), RAct::Data(3, false), RAct::Err(kind)]);
+            s.wacts = vec![WAct::Err(kind), WAct::Part(1)];
+            s.facts = vec![Some(kind)];
+            take_line(&s, 5, &ops, w);
+            n += 1;
+        }
+    }
+    // long runs of calls on ONE adapter value (call counters that wrap, budgets)
+    {
+        let d1: Vec<u8> = (0..150u32).map(|i| b'A' + (i % 26) as u8).collect();
+        let d2: Vec<u8> = (0..250u32).map(|i| b'a' + (i % 26) as u8).collect();
+        let reads: Vec<AdOp> = (0..330).map(|_| AdOp::Read(1)).collect();
+        let mut mixed: Vec<AdOp> = vec![];
+        for i in 0..300 {
+            mixed.push(AdOp::Read(1));
+            mixed.push(AdOp::Write(vec![b'0' + (i % 10) as u8]));
+            if i % 50 == 49 {
+                mixed.push(AdOp::Flush);
+            }
+        }
+        if mode == "chain" {
+            chain_line(&mk(1, &d1, vec![]), &mk(2, &d2, vec![]), &reads, w);
+            chain_line(&mk(1, &d1, vec![]), &mk(2, &d2, vec![]), &mixed, w);
+            n += 2;
+        }
+        if mode == "take" {
+            for limit in [280u64, 1000] {
+                take_line(&mk(1, &d2, vec![]), limit, &reads, w);
+                take_line(&mk(1, &d2, vec![]), limit, &mixed, w);
+                n += 2;
             }
         }
     }
